@@ -25,6 +25,9 @@ Ix(ix) == [hard |-> ix.hard, n |-> ix.n]
 Apply(op, a) ==
   CASE op.op = "root" -> Root(op.i)
     [] op.op = "normal" -> Normal(op.i)
+    \* an extended private key IMPORTED from bytes (a key some other wallet made): the bytes of key a with one bit pattern or-ed in.
+    \* For the algebra it is just another root; the laws must hold for it as for keys the library generated itself.
+    [] op.op = "tweak" -> IF Kind(a) = "xprv" THEN Root(<<"imported", a, op.byte, op.mask>>) ELSE ERR
     [] op.op = "derive" -> IF Kind(a) = "xprv" THEN Der(a, Ix(op.ix)) ELSE ERR
     [] op.op = "pub" -> IF Kind(a) = "xprv" THEN Pub(a) ELSE ERR
     [] op.op = "dpub" -> IF Kind(a) # "xpub" \/ op.ix.hard THEN ERR ELSE Pub(Der(a.k, Ix(op.ix)))      \* soft derivation commutes with to_public
@@ -33,7 +36,7 @@ Apply(op, a) ==
     [] op.op = "topub" -> IF Kind(a) = "sk" THEN PubOf(a) ELSE ERR
     [] op.op = "sign" -> IF Kind(a) = "sk" THEN Sig(a, op.m) ELSE ERR
     [] OTHER -> ERR
-Producing == {"root", "normal", "derive", "pub", "dpub", "raw", "rawpub", "topub", "sign"}
+Producing == {"root", "normal", "tweak", "derive", "pub", "dpub", "raw", "rawpub", "topub", "sign"}
 \* (3)
 VerifyExpected(pk, m, sg) == pk.t = "pubof" /\ sg = Sig(pk.s, m)
 \* (4) layouts: xprv = extended secret (64) ++ chain code (32); xpub = public key (32) ++ chain code (32)
